@@ -172,7 +172,9 @@ class StlRegionHarness(Harness):
       ex.fail("C18:stl-reader-raises", {"site": exc[1], "exc": type(exc[0]).__name__})
       return
     vp = ex.integer("vp", 1, 99)
-    ex.assume(zint(vp) <= zint(rows))
+    lh_ = 2 if params["dh"] else 1
+    # a valid subtitle fits the rows of the display: its last row VP + lines*height - 1 does not exceed the row count
+    ex.assume(zint(vp) + params["lines"] * lh_ - 1 <= zint(rows))
     jc = ex.integer("jc", 0, 3)
     text = (b"\x0d" if params["dh"] else b"") + b"\x8a".join([b"Line"] * params["lines"])
     tf_field = text + b"\x8f" * (112 - len(text))
@@ -193,15 +195,22 @@ class StlRegionHarness(Harness):
     det["display_align"] = da.value
     ex.witness("top-anchored" if da is styles.DisplayAlignType.before else "bottom-anchored")
     ex.prove(And(h >= 0, w >= 0), "C09:region-non-negative-extent", det)
-    ex.prove(And(oy >= 10, oy + h <= 90, ox >= 5, ox + w <= 95), "C09:region-inside-safe-area", det)
+    eps = RV(0) if ex.symbolic else RV(Fraction(1, 10 ** 9))
+    ex.prove(And(oy >= 10 - eps, oy + h <= 90 + eps, ox >= 5, ox + w <= 95), "C09:region-inside-safe-area", det)
     # vertical position: row VP of `rows` rows spread over the safe area (80 % of the height)
     row_h = RV(80) / zreal(rows)
     lh = 2 if params["dh"] else 1
+    def close(a, b):
+      if ex.symbolic:
+        return a == b
+      d = z3.simplify(a - b)
+      v = Fraction(d.numerator_as_long(), d.denominator_as_long())
+      return abs(v) <= Fraction(1, 10 ** 9)   # native floats: rounding of the geometry is not the subject
     if da is styles.DisplayAlignType.before:
-      ex.prove(oy == 10 + (zreal(vp) - 1) * row_h, "C09:region-anchored-at-vp", det)
+      ex.prove(close(oy, 10 + (zreal(vp) - 1) * row_h), "C09:region-anchored-at-vp", det)
     else:
       # bottom anchored: the region ends below the last line, which starts at row VP and takes `lines` rows
-      ex.prove(oy + h == 10 + (zreal(vp) - 1 + params["lines"] * lh) * row_h, "C09:region-anchored-at-vp", det)
+      ex.prove(close(oy + h, 10 + (zreal(vp) - 1 + params["lines"] * lh) * row_h), "C09:region-anchored-at-vp", det)
     want_ta = z3.If(zint(jc) == 1, 0, z3.If(zint(jc) == 3, 2, 1))
     got_ta = {styles.TextAlignType.start: 0, styles.TextAlignType.center: 1, styles.TextAlignType.end: 2}[p.get_style(SP.TextAlign)]
     ex.prove(want_ta == got_ta, "C09:justification", det)
